@@ -297,6 +297,18 @@ let do_d entry hexs =
   | "QClass" -> run_d (codec_code M.dec_QClass) input
   | _ -> "BAD-CASE entry"
 
+(* ---------- W cases: the reference decoder Spec/Wire.v on the same bytes ---------- *)
+let do_w entry hexs =
+  let input = case_hex hexs in
+  let show c = function Some v -> "OK " ^ c v | None -> "REJECT" in
+  match entry with
+  | "Dns" -> show (c_dns false) (M.spec_Dns input)
+  | "RR" -> show (c_rr false) (M.spec_RR input)
+  | "Question" -> show (c_question false) (M.spec_Question input)
+  | "Flags" -> show c_flags (M.spec_Flags input)
+  | "DomainName" -> show (c_name false) (M.spec_DomainName input)
+  | _ -> "BAD-CASE entry"
+
 (* ---------- E cases ---------- *)
 let enc_line (r : M.n list M.res) =
   match r with
@@ -496,6 +508,10 @@ let rec run_case (line : string) : string =
          (match String.split_on_char ' ' rest with
           | [entry; h] -> do_d entry h
           | _ -> "BAD-CASE D")
+       | "W" ->
+         (match String.split_on_char ' ' rest with
+          | [entry; h] -> do_w entry h
+          | _ -> "BAD-CASE W")
        | "E" ->
          let j = String.index rest ' ' in
          let elem = String.sub rest 0 j in
